@@ -198,6 +198,19 @@ Fixpoint failover_from (ep : endpoint) (i : nat) (last : outcome) (ups : list up
 
 Definition failover (ep : endpoint) (ups : list upstream) : fo_result := failover_from ep 0 ONoServers ups.
 
+(** * Fault sequences: the same group asked again while upstreams have changed their behaviour
+
+    The client state (cache entries, known-unsupported flags) is what the previous call left; only what the upstreams
+    SEND is replaced.  A shorter response list leaves the remaining upstreams unchanged. *)
+Definition set_resp (u : upstream) (r : response) : upstream :=
+  mk_upstream r (u_marker u) (u_disabled u) (u_cached u).
+
+Fixpoint set_resps (ups : list upstream) (rs : list response) : list upstream :=
+  match ups, rs with
+  | u :: us, r :: rs' => set_resp u r :: set_resps us rs'
+  | _, _ => ups
+  end.
+
 (** * Observables of the returned error *)
 
 Definition err_kind (e : perr) : string :=
